@@ -139,7 +139,73 @@ def run_case(c):
             results.append(SJR(number, SimpleNamespace(samples_summary=number), SimpleNamespace(samples_summary=number)))
             results = sorted(results)
         return {"numbers": [r.number for r in results]}
+    if kind == "sens_run":
+        return sens_run(c)
     raise ValueError(kind)
+
+
+class _Sim:
+    def __call__(self, instance, simulate_path):
+        return 0.0
+
+
+def _result(model, ll):
+    from autofit.non_linear.mock.mock_samples_summary import MockSamplesSummary
+    summary = MockSamplesSummary(
+        model=model,
+        max_log_likelihood_sample=af.Sample(log_likelihood=ll, log_prior=0.0, weight=1.0,
+                                            kwargs={path: 1.0 for path in model.paths}),
+    )
+    return af.m.MockResult(samples_summary=summary, model=model)
+
+
+class _BaseFit:
+    def __call__(self, dataset, model, paths):
+        return _result(model, 0.0)
+
+
+class _PerturbFit:
+    def __call__(self, dataset, model, paths):
+        return _result(model, 1.0)
+
+
+def sens_run(c):
+    """Real Sensitivity.run() with the completion order steered by a permuting job runner."""
+    ns = c["ns"]
+    names = ["centre", "normalization", "sigma"][: len(ns)]
+    kw = {"centre": 1.0, "normalization": 1.0, "sigma": 1.0}
+    for nm, (lo, hi) in zip(names, c["priors"]):
+        kw[nm] = af.UniformPrior(lower_limit=unhex(lo), upper_limit=unhex(hi))
+    perturb_model = af.Model(af.Gaussian, **kw)
+    instance = af.ModelInstance()
+    instance.gaussian = af.Gaussian()
+    sens = s.Sensitivity(
+        simulation_instance=instance,
+        base_model=af.Collection(gaussian=af.Model(af.Gaussian, centre=af.UniformPrior(0.0, 1.0), normalization=1.0, sigma=1.0)),
+        perturb_model=perturb_model,
+        simulate_cls=_Sim(),
+        base_fit_cls=_BaseFit(),
+        perturb_fit_cls=_PerturbFit(),
+        paths=af.DirectoryPaths(name="sens%d" % c["idx"]),
+        number_of_steps=tuple(ns) if c["as_tuple"] else ns[0],
+        number_of_cores=1,
+    )
+    old = s.Sequential
+    s.Sequential = permuted_process(c["order"])
+    try:
+        res = sens.run()
+    finally:
+        s.Sequential = old
+    cells = []
+    for sm in res.perturb_samples:
+        cells.append([[hexf(getattr(sm.model.perturb, nm).lower_limit), hexf(getattr(sm.model.perturb, nm).upper_limit)] for nm in names])
+    rows = []
+    with open(sens.results_path) as f:
+        lines = f.read().strip().splitlines()
+    for ln in lines[1:]:
+        rows.append(int(ln.split(",")[0].strip()))
+    return {"shape": list(res.shape), "n": len(res.samples), "cells": cells, "csv_index": rows,
+            "n_perturb": len(res.perturb_samples)}
 
 
 def main():
